@@ -10,8 +10,16 @@
 // tag 3 Name{the same string}.  The test Digester Dig3 has a 3-bit range and is the function
 // digest3 of coq/AnyIdModel.v; the test Storage Val keeps (kind, content) with kind 0 for int/long
 // and kind 1 for std::string/Name, and supports == and < (kind first, then content).
+//   -DVH_WIDE=1  the test digester spreads its eight values over the whole range of unsigned int (digest3 * 0x24924924),
+//   -DVH_WIDE=2  over the whole range of std::size_t: the order of the digests is the same (the scaling is monotone and
+//                does not overflow) and the trace prints the unscaled value, so the model's trace is unchanged — but two
+//                digests may now be further apart than half the range of their type
 #include "common.h"
 #include "eventpp/utilities/anyid.h"
+
+#ifndef VH_WIDE
+#define VH_WIDE 0
+#endif
 
 namespace {
 
@@ -38,11 +46,23 @@ unsigned int digest3(int tag, long n)
 	return (unsigned int)((n * 5 + n / 8 + salt) % 8);
 }
 
+#if VH_WIDE == 1
+using DigT = unsigned int;
+constexpr DigT digScale = 0x24924924u;
+#elif VH_WIDE == 2
+using DigT = std::size_t;
+constexpr DigT digScale = (DigT)0x2492492492492492ull;
+#else
+using DigT = unsigned int;
+constexpr DigT digScale = 1;
+#endif
+static_assert((DigT)(7 * digScale) / 7 == digScale, "the scaled digests must not overflow");
+
 template <typename T> struct Dig3;
-template <> struct Dig3<int> { unsigned int operator() (int v) const { return digest3(0, v); } };
-template <> struct Dig3<std::string> { unsigned int operator() (const std::string & v) const { return digest3(1, std::stol(v)); } };
-template <> struct Dig3<long> { unsigned int operator() (long v) const { return digest3(2, v); } };
-template <> struct Dig3<Name> { unsigned int operator() (const Name & v) const { return digest3(3, std::stol(v.text)); } };
+template <> struct Dig3<int> { DigT operator() (int v) const { return digest3(0, v) * digScale; } };
+template <> struct Dig3<std::string> { DigT operator() (const std::string & v) const { return digest3(1, std::stol(v)) * digScale; } };
+template <> struct Dig3<long> { DigT operator() (long v) const { return digest3(2, v) * digScale; } };
+template <> struct Dig3<Name> { DigT operator() (const Name & v) const { return digest3(3, std::stol(v.text)) * digScale; } };
 
 // a variant-like value type over mixed source types, comparable with == and <
 struct Val
@@ -132,7 +152,7 @@ void runCase(const char * storage, const std::vector<Source> & sources, const st
 	const long n = (long)ids.size();
 	std::printf("storage %s\n", storage);
 	std::printf("dig");
-	for(const Id & x : ids) std::printf(" %ld", (long)x.getDigest());
+	for(const Id & x : ids) std::printf(" %ld", (long)(x.getDigest() / digScale));
 	std::printf("\n");
 
 	std::vector<std::vector<char>> eq(n, std::vector<char>(n)), lt(n, std::vector<char>(n)), hh(n, std::vector<char>(n));
@@ -195,7 +215,7 @@ void runCase(const char * storage, const std::vector<Source> & sources, const st
 using IdVal = eventpp::AnyId<Dig3, Val>;
 using IdEmpty = eventpp::AnyId<Dig3, eventpp::EmptyAnyStorage>;
 
-static_assert(std::is_same<IdVal::DigestType, unsigned int>::value, "digest type of the test digester");
+static_assert(std::is_same<IdVal::DigestType, DigT>::value, "digest type of the test digester");
 
 std::vector<long> numbers(const std::vector<std::string> & ws, size_t from)
 {
